@@ -177,6 +177,37 @@ void arrays()
       });
     });
   });
+  // three arrays / tuples, every combination of value categories of every position
+  for_cats3([&](auto c1, auto c2, auto c3)
+  {
+    constexpr char C1 = decltype(c1)::value;
+    constexpr char C2 = decltype(c2)::value;
+    constexpr char C3 = decltype(c3)::value;
+#ifdef C05_ARRAY_APPEND_LVALUE
+    constexpr bool first_ok = true;
+#else
+    constexpr bool first_ok = C1 == 'r'; // array::append with an lvalue first array is a hard error there
+#endif
+    if constexpr (first_ok)
+      run3<C1, C2, C3>("array::join", true, "array1+array2+array3/all", mk_arr1, mk_arr2, mk_arr3,
+          [](auto &&a, auto &&b, auto &&cc) C05_CALL(fcppt::array::join(C05_FWD(a), C05_FWD(b), C05_FWD(cc))));
+    run3<C1, C2, C3>("tuple::concat", true, "tuple2+tuple1+tuple<T,T>", mk_tup, mk_tup1, mk_tup_tt,
+        [](auto &&a, auto &&b, auto &&cc) C05_CALL(fcppt::tuple::concat(C05_FWD(a), C05_FWD(b), C05_FWD(cc))));
+    run3<C1, C2, C3>("array::apply", true, "array2,array2,array2", mk_arr2, mk_arr2, mk_arr2, [](auto &&a, auto &&b, auto &&cc)
+    {
+      return fcppt::array::apply([](auto &&x, auto &&y, auto &&z)
+      {
+        cb_scope const g{C05_RECV(x) + "," + C05_RECV(y) + "," + C05_RECV(z)};
+        vec r;
+        r.reserve(3U);
+        r.emplace_back(C05_FWD(x));
+        r.emplace_back(C05_FWD(y));
+        r.emplace_back(C05_FWD(z));
+        return r;
+      },
+      C05_FWD(a), C05_FWD(b), C05_FWD(cc));
+    });
+  });
   run3<'r', 'c', 'r'>("array::join", true, "array1+array2+array3", mk_arr1, mk_arr2, mk_arr3,
       [](auto &&a, auto &&b, auto &&cc) { return fcppt::array::join(C05_FWD(a), C05_FWD(b), C05_FWD(cc)); });
   run3<'r', 'r', 'l'>("array::join", true, "array1+array2+array3", mk_arr1, mk_arr2, mk_arr3,
